@@ -271,7 +271,7 @@ func (s *session) inputScale(in input) rlwe.Scale {
 		// level >= 2: the smallest power of two above Q0*Q1/MessageRatio. ScaleDown keeps two primes for such an
 		// input (its own admissibility test, Q_l/scale >= Q0/(2*MessageRatio), holds at level 2) and has to divide
 		// by both of them to reach Q0/MessageRatio.
-		return pow2Scale(int(math.Floor(math.Log2(q0)+math.Log2(float64(s.res.Q()[1]))))-s.cf.LogRatio+1)
+		return pow2Scale(int(math.Floor(math.Log2(q0)+math.Log2(float64(s.res.Q()[1])))) - s.cf.LogRatio + 1)
 	case "pow2lvl-top":
 		return pow2Scale(top)
 	case "pow2lvl-up":
